@@ -12,6 +12,8 @@ import Mochi.Driver.WriteBuf
 import Mochi.Driver.Storage
 import Mochi.Driver.Reader
 import Mochi.Driver.Hostile
+import Mochi.Driver.Restart
+import Mochi.Driver.Crash
 open Mochi.Driver
 
 structure DState where
@@ -22,6 +24,7 @@ structure DState where
   writebuf : WState := {}
   storage : St.StState := {}
   hostile : HState := {}
+  restart : St.SrState := {}
 
 /-- input line: `op args…<TAB>implementation output`;
     answer line: `model output<TAB>spec verdict<TAB>signature`; unknown op => `bad-op` -/
@@ -55,7 +58,10 @@ def answer (st : DState) (line : String) : DState × String :=
               | none =>
                 match St.storageOp st.storage impl ws with
                 | some (s', r) => ({ st with storage := s' }, fmt r)
-                | none => (st, "bad-op")
+                | none =>
+                  match (St.crashOp st.restart impl ws <|> St.restartOp st.restart impl ws) with
+                  | some (s', r) => ({ st with restart := s' }, fmt r)
+                  | none => (st, "bad-op")
 
 partial def loop (h : IO.FS.Stream) (out : IO.FS.Stream) (st : DState) : IO Unit := do
   let line ← h.getLine
